@@ -64,14 +64,6 @@ def run_case(case, rec):
     if isinstance(u.exc, RecursionError):
         rec.count('recursion_error_set_aside')
         return
-    if common.CONFIG.get('warnings') == 'error' and \
-            isinstance(u.exc, DeprecationWarning) and len(data) >= 11 and \
-            data[0] == 1 and int.from_bytes(data[7:11], 'big') == \
-            common.RECOVER_ASYNC:
-        # python -W error: the documented deprecation warning of
-        # Basic.RecoverAsync, raised because the user asked for it
-        rec.count('recover_async_deprecation_under_W_error')
-        return
     tb = u.exc.__traceback__
     site = '?'
     while tb is not None:
